@@ -194,13 +194,16 @@ def kCharset : Bytes := cs ['c', 'h', 'a', 'r', 's', 'e', 't']
     for the cnonce.  `ok none` = NULL. -/
 def digestMd5 (challenge : Option Bytes) (jid password rnd : Bytes) : Res (Option Bytes) :=
   match challenge with
-  | none => .crash "_parse_digest_challenge:strlen(msg)"
+  -- _parse_digest_challenge: if (msg == NULL) return NULL;   (fix 26900de)
+  | none => .ok none
   | some msg =>
   -- text = xmpp_base64_decode_str(ctx, msg, strlen(msg)); if (text == NULL) return NULL;
   match Base64.decodeStr msg with
   | none => .ok none
   | some text =>
   let table := parseChallenge text
+  -- if (hash_get(table, "nonce") == NULL) { hash_release(table); return NULL; }   (fix 69bedf1)
+  if (table.get kNonce).isNone then .ok none else
   let node? := Jid.node jid
   let domain := Jid.domain jid
   -- realm = hash_get(table, "realm"); if (realm == NULL || strlen(realm) == 0) hash_add(… domain)
@@ -217,10 +220,8 @@ def digestMd5 (challenge : Option Bytes) (jid password rnd : Bytes) : Res (Optio
   let cnonce := (randNonce Gen.Sasl.digestCnonceBuf rnd).getD []
   let table := table.add kCnonce cnonce
   let table := table.add kNc Gen.Sasl.digestNc
-  -- if (hash_get(table, "qop") == NULL) hash_add(table, "qop", "auth");
-  let table := match table.get kQop with
-    | none => table.add kQop Gen.Sasl.digestQopDefault
-    | some _ => table
+  -- hash_add(table, "qop", strophe_strdup(ctx, "auth"));   (unconditional since fix 554713d)
+  let table := table.add kQop Gen.Sasl.digestQopDefault
   let digestUri := Gen.Sasl.digestUriPrefix ++ domain
   let table := table.add kDigestUri digestUri
   -- MD5(node : realm : password)
@@ -231,13 +232,18 @@ def digestMd5 (challenge : Option Bytes) (jid password rnd : Bytes) : Res (Optio
   | some nonce =>
   let cn := (table.get kCnonce).getD []
   let ha1 := md5Of [d1, [colon], nonce, [colon], cn]
-  let qop := (table.get kQop).getD []
+  -- strcmp(hash_get(table, "qop"), "auth")
+  match table.get kQop with
+  | none => .crash "sasl_digest_md5:strcmp(qop)"
+  | some qop =>
   let ha2 := md5Of ([Gen.Sasl.digestA2Prefix, (table.get kDigestUri).getD []] ++
       (if qop != Gen.Sasl.digestQopAuth then [Gen.Sasl.digestA2Suffix] else []))
   let resp := md5Of [digestToHex ha1, [colon], nonce, [colon], (table.get kNc).getD [], [colon], cn,
       [colon], qop, [colon], digestToHex ha2]
   let table := table.add kResponse (digestToHex resp)
-  let reply := Gen.Sasl.digestReplyKeys.foldl (fun buf kq => addKey table kq.1 buf kq.2) []
+  -- the _add_key calls; `charset` only `if (hash_get(table, "charset"))`   (fix 6a95a25)
+  let reply := Gen.Sasl.digestReplyKeys.foldl (fun buf kq =>
+      if kq.1 == kCharset && (table.get kCharset).isNone then buf else addKey table kq.1 buf kq.2) []
   .ok (some (Base64.encode reply))
 
 /-- outcome of a SASL challenge handler: the text of the `<response/>` handed to send_stanza, or
@@ -265,15 +271,34 @@ def hiLoop (alg : Alg) (text : Bytes) : Nat → Bytes → Bytes → Option Bytes
   | 0, _, dg => some dg
   | n + 1, tmp, dg => (hmac alg text tmp).bind fun t => hiLoop alg text n t (xorBytes dg t)
 
-/-- `SCRAM_Hi(alg, text, len, salt, salt_len, i, digest)` -/
+/-- `crypto_HMAC_parts(alg, key, key_len, text, len, text2, len2, digest)`: HMAC of
+    `text ‖ text2` fed to the inner hash as two updates (`crypto_HMAC` is this function with
+    `len2 = 0`, i.e. `Strophe.Hash.hmac`, see `Lemmas/Sasl.lean hmacParts_nil`) -/
+def hmacParts (alg : Alg) (key text text2 : Bytes) : Option Bytes :=
+  let blocksize := hmacBlockSize alg
+  let keyPad0 := zeros blocksize
+  let keyPad? : Option Bytes :=
+    if key.length ≤ blocksize then some (memcpy keyPad0 0 key)
+    else (alg.hash key).map fun d => memcpy keyPad0 0 d
+  keyPad?.bind fun keyPad =>
+  let keyIpad := keyPad.map fun (b : UInt8) => b ^^^ Gen.hmacIpad
+  let keyOpad := keyPad.map fun (b : UInt8) => b ^^^ Gen.hmacOpad
+  -- init; update(key_ipad); update(text, len); if (len2 > 0) update(text2, len2); final(sha_digest);
+  let c := alg.update (alg.update alg.init keyIpad) text
+  let c := if text2.length > 0 then alg.update c text2 else c
+  (alg.final c).bind fun shaDigest =>
+  alg.final (alg.update (alg.update alg.init keyOpad) (shaDigest.take alg.digestSize))
+
+/-- `SCRAM_Hi(alg, text, len, salt, salt_len, i, digest)` (after fix 61739ad: the salt is no longer
+    copied into `tmp[]`; `tmp` only holds digests) -/
 def hi (alg : Alg) (text salt : Bytes) (i : Nat) : Res Bytes :=
-  -- assert(salt_len <= sizeof(tmp) - sizeof(int1));
-  if salt.length > Gen.Sasl.hiTmpSize - Gen.Sasl.hiInt1.length then .abort "SCRAM_Hi:assert(salt_len)"
+  -- assert(alg->digest_size <= sizeof(tmp));
+  if alg.digestSize > Gen.Sasl.hiTmpSize then .abort "SCRAM_Hi:assert(digest_size)"
   -- memset(digest, 0, alg->digest_size); if (i == 0) return;
   else if i = 0 then .ok (zeros alg.digestSize)
   else
     ofDigest "SCRAM_Hi:hmac" <|
-      (hmac alg text (salt ++ Gen.Sasl.hiInt1)).bind fun u1 => hiLoop alg text (i - 1) u1 u1
+      (hmacParts alg text salt Gen.Sasl.hiInt1).bind fun u1 => hiLoop alg text (i - 1) u1 u1
 
 /-- `SCRAM_ClientKey` (Normalize(password) is omitted in the C code) -/
 def clientKey (alg : Alg) (password salt : Bytes) (i : Nat) : Res Bytes :=
@@ -376,6 +401,11 @@ def litGs2Tail : Bytes := cs [',', ',', 'n', '=']   -- ",,n="
 def litRsep : Bytes := cs [',', 'r', '=']           -- ",r="
 def litPeq : Bytes := cs ['p', '=']
 
+/-- `_scram_escape_name` (fix 1d69871): `','` ↦ "=2C", `'='` ↦ "=3D" -/
+def escapeName (name : Bytes) : Bytes :=
+  name.flatMap fun c =>
+    if c == comma then [eq_, 50, 67] else if c == eq_ then [eq_, 51, 68] else [c]
+
 /-- `_make_scram_init_msg(scram)`; `none` = -1.  `rnd` = the random bytes of the nonce. -/
 def scramInit (plus secured : Bool) (tls : TlsCb) (jid rnd : Bytes) : Option ScramInit :=
   -- if (scram->sasl_plus) { if (!is_secured) return -1; if (tls_init_channel_binding(…)) return -1; … }
@@ -390,7 +420,9 @@ def scramInit (plus secured : Bool) (tls : TlsCb) (jid rnd : Bytes) : Option Scr
   let btLen0 := match bt with | some t => t.length + 1 | none => 0
   match Jid.node jid with
   | none => none
-  | some node =>
+  | some node0 =>
+  -- message = _scram_escape_name(ctx, node); node = message;
+  let node := escapeName node0
   let nonce := (randNonce Gen.Sasl.scramNonceLen rnd).getD []
   let messageLen := node.length + nonce.length + 8 + btLen0 + 1
   let btLen := btLen0 + 3
